@@ -36,7 +36,7 @@ func Graph6Decode(s string) (*DenseGraph, error) {
 	if s[0] != 126 {
 		n = uint64(s[0] - 63)
 		i = 1
-	} else if s[1] != 126 {
+	} else if len(s) < 2 || s[1] != 126 {
 		if len(s) < 4 {
 			return &DenseGraph{}, errors.New("String too short - unable to decode n")
 		}
